@@ -6,9 +6,11 @@ CONSTANTS
   ExtraPayloads = {}
   Sizes <- MCSizes
   Runes <- MCRunes
+  RErrs = {"EOF", "panic"}
+  WErrs = {"nil", "boom", "panic"}
   MaxLen = 4
 CONSTRAINT Bound
 INVARIANTS TypeOK PrevOK CleanNoUnread
-PROPERTIES WritesAppend WriteRuneSound ReadsConsume UnreadRestores QueriesPure PanicsKeepData WriteToDrains ReWriteExact
+PROPERTIES WritesAppend WriteRuneSound ReadsConsume UnreadRestores QueriesPure PanicsKeepData WriteToDrains ReWriteExact PokeExact PipeMoves
 VIEW View
 CHECK_DEADLOCK FALSE
